@@ -155,9 +155,25 @@ func scenarioShutdown(w *world) {
 		}
 		return accState(w.eps[0].assoc) == closed && accState(w.eps[1].assoc) == closed
 	}
-	w.run(allReturned, w.now()+phase)
-	if w.stopped() {
-		return
+	if tp.intn(3) == 0 {
+		// a long outage in the middle of the shutdown sequence: T2 backs off, and must keep trying
+		w.run(allReturned, w.now()+time.Duration(tp.intn(3000))*time.Millisecond)
+		if w.stopped() {
+			return
+		}
+		if !allReturned() {
+			w.net.partitioned = [2]bool{true, true}
+			w.probe("partition-during-shutdown")
+			w.sleep(time.Duration(5+tp.intn(400)) * time.Second)
+			if w.stopped() {
+				return
+			}
+		}
+	} else {
+		w.run(allReturned, w.now()+phase)
+		if w.stopped() {
+			return
+		}
 	}
 	w.net.heal()
 	healAt := w.now()
